@@ -66,7 +66,7 @@ def run(tier, seed, replay=None):
         cases.append((b, [(Fr(rc['t']), 'replay')], [rc['d']], [bool(rc['from_right'])]))
     else:
         for i in range(nb):
-            b = G.gen_basis(rng, big=(i % 17 == 0))
+            b = G.gen_basis(rng, kind=('general' if i % 5 == 4 else None), big=(i % 17 == 0))
             pts = G.basis_points(rng, b, tol)
             ds = list(range(0, b['order'] + 2))
             if tier == 'quick' and len(ds) > 4:
@@ -90,8 +90,21 @@ def run(tier, seed, replay=None):
         n = basis.num_functions()
         for d in ds:
             for fr_ in sides:
-                N = basis.evaluate(tf, d, fr_)
-                Ns = basis.evaluate(tf, d, fr_, sparse=True)
+                try:
+                    N = basis.evaluate(tf, d, fr_)
+                    Ns = basis.evaluate(tf, d, fr_, sparse=True)
+                except Exception as e:  # noqa
+                    # find one offending parameter for the replay
+                    bad_t = None
+                    for x_ in tf:
+                        try:
+                            basis.evaluate([x_], d, fr_)
+                        except Exception:  # noqa
+                            bad_t = x_
+                            break
+                    V.failure({'what': 'evaluate raised %s on a valid basis' % type(e).__name__,
+                               'case': dict(b, knots=[str(x) for x in b['knots']]), 'd': d, 'from_right': fr_, 't': bad_t})
+                    continue
                 Nd = Ns.toarray() if hasattr(Ns, 'toarray') else np.asarray(Ns)
                 impl.append((N, Nd))
                 lines1.append('basis_evaluate %s %d %d %s %d %d %s' % (
